@@ -248,6 +248,46 @@ def assigned_names(stmts: list[ast.stmt]) -> set[str]:
     return out
 
 
+_ALLOC_EXPRS = (ast.List, ast.Dict, ast.Set, ast.ListComp, ast.DictComp, ast.SetComp)
+
+
+def loop_fresh_names(ex: Exec, st: ast.stmt) -> set[str]:
+    """Names that, inside the loop, are only ever bound to an object allocated by that
+    very assignment (`x = []`, `x = {..}`, `x = [.. for ..]`, `x = list()/dict()/set()`).
+    A write through such a name reaches an object allocated during the loop: it did not
+    exist at loop entry, and nothing is known about unallocated ids anyway, so it needs
+    no havoc at the loop head."""
+    binds: dict[str, list[bool]] = {}
+    for n in ast.walk(st):
+        tgts: list[tuple[ast.expr, ast.expr | None]] = []
+        if isinstance(n, ast.Assign):
+            tgts = [(t, n.value) for t in n.targets]
+        elif isinstance(n, ast.AnnAssign):
+            tgts = [(n.target, n.value)]
+        elif isinstance(n, (ast.AugAssign, ast.NamedExpr)):
+            tgts = [(n.target, None)]
+        elif isinstance(n, (ast.For, ast.comprehension)):
+            tgts = [(n.target, None)]
+        elif isinstance(n, ast.ExceptHandler) and n.name:
+            binds.setdefault(n.name, []).append(False)
+        elif isinstance(n, ast.withitem) and n.optional_vars is not None:
+            tgts = [(n.optional_vars, None)]
+        for t, v in tgts:
+            for x in ast.walk(t):
+                if isinstance(x, ast.Name) and isinstance(x.ctx, ast.Store):
+                    ok = (
+                        t is x
+                        and v is not None
+                        and (
+                            isinstance(v, _ALLOC_EXPRS)
+                            or (isinstance(v, ast.Call) and isinstance(v.func, ast.Name) and v.func.id in ("list", "dict", "set")
+                                and v.func.id not in ex.locals)
+                        )
+                    )
+                    binds.setdefault(x.id, []).append(ok)
+    return {k for k, v in binds.items() if v and all(v)}
+
+
 def havoc_for_loop(ex: Exec, names: set[str], st: ast.stmt | None = None, heap: bool = True) -> None:
     """Forget what a loop iteration may have changed: assigned locals, and the heap
     locations in the loop's syntactic write set (restricted to the function's frame)."""
@@ -257,10 +297,13 @@ def havoc_for_loop(ex: Exec, names: set[str], st: ast.stmt | None = None, heap: 
     if writes is None:
         coarse_maps = None
     else:
+        lfresh = loop_fresh_names(ex, st) if st is not None else set()
         for base, maps in writes:
             via = None
             if isinstance(base, tuple) and base[0] == "via":
                 _, base, via = base
+            if via is None and isinstance(base, ast.Name) and base.id in lfresh and not any(m.startswith("fld:") for m in maps):
+                continue  # container allocated inside the loop: not an object of the loop-head state
             free = {x.id for x in ast.walk(base) if isinstance(x, ast.Name)} if base is not None else set()
             if base is not None and not (free & names) and all(v in ex.locals for v in free):
                 try:
